@@ -216,6 +216,7 @@ pub fn batch(e: &Engine, cfg: &BatchCfg) -> BatchResult {
         // watchdog
         let cur = &cur;
         let finished = &finished;
+        let noted: Vec<AtomicU64> = (0..jobs).map(|_| AtomicU64::new(0)).collect();
         let allowance_ms = e.hang_allowance_s * 1000;
         let ename = e.name;
         let vseed = cfg.verif_seed;
@@ -228,11 +229,16 @@ pub fn batch(e: &Engine, cfg: &BatchCfg) -> BatchResult {
             for w in 0..jobs {
                 let r = cur[w].0.load(Ordering::Relaxed);
                 let st = cur[w].1.load(Ordering::Relaxed);
-                if r != 0 && now.saturating_sub(st) > allowance_ms {
-                    // A run exceeded its allowance: hand over to the driver,
-                    // which re-executes that one seed alone before reporting.
+                if r != 0 && now.saturating_sub(st) > 3 * allowance_ms {
+                    // A run exceeded three times its allowance: hand over to
+                    // the driver, which re-executes that one seed alone before
+                    // reporting. (Between 1x and 3x it is only noted: a load
+                    // spike must not abort a batch.)
                     println!("HANG-CANDIDATE engine={} seed={} run={}", ename, vseed, r - 1);
                     std::process::exit(3);
+                }
+                if r != 0 && now.saturating_sub(st) > allowance_ms && noted[w].swap(r, Ordering::Relaxed) != r {
+                    println!("SLOW-RUN engine={} seed={} run={} (over {} s; still running)", ename, vseed, r - 1, allowance_ms / 1000);
                 }
             }
         });
